@@ -1,5 +1,6 @@
 """C20 — bias and trend evaluation report the documented quantities (ibicus/evaluate)."""
 import datetime
+import logging
 import math
 import random
 import warnings
@@ -119,6 +120,7 @@ class Batch:
     def __init__(self):
         self.items = []
         self.lines = []
+        self.exact = []  # (driver line, expected output text, case): compared exactly
 
     def add(self, what, case, op_prefix, arrays, real, shape, dropped_on_inf=True, tie_possible=False, scale=1.0, factor=1.0):
         start = len(self.lines)
@@ -144,6 +146,11 @@ def judge(item, outs, res):
     per = [(k, v * Fraction(item["factor"])) if k == "ok" else (k, v) for k, v in per]
     raises = [v for k, v in per if k == "error" and v != "div0"]
     kind, val = item["real"]
+    hist = res.extra.setdefault("outcomes", {})
+    tag = (f"model raises {raises[0]} at {'all' if len(raises) == len(per) else 'some'} locations" if raises
+           else ("model non-finite at some location" if any(k == "error" for k, _ in per) else "finite everywhere"))
+    tag += " / impl " + (f"raises {val}" if kind == "raise" else ("row dropped" if val is None else "returns"))
+    hist[tag] = hist.get(tag, 0) + 1
     if raises:
         # Model.Evaluate.gridEval: one raising location aborts the call.  The multiplicative guards are `np.all` over
         # the grid; when only SOME locations trip them the property does not fix whether the call raises or reports
@@ -327,6 +334,14 @@ def run_case(k, rng, tier, batch, res, problems, n_oracle):
                 why = differs(("ok", o_), ref_days(ms, obs, tV), 10.0) or differs(("ok", b_), realcm[1] - o_, 10.0)
                 if why:
                     problem("calculate_bias_days_metrics", f"Obs / Bias column of {mtxt} ('{key}'): {why}", {"metric": mtxt, "key": key})
+
+    # ---------------- _yearly_exceedances: the per-year counts, compared exactly
+    for (mo, mtxt, ms) in metrics[:1]:
+        for x, yy, tt_ in ((rawV, yV, tV), (rawF, yF, tF)):
+            ye = call(marginal._yearly_exceedances, mo, x, tt_)
+            for (i, j), txt in cols(x):
+                batch.exact.append((f"yearly {mtxt} {yy} {txt}", "raise" if ye[0] == "raise" else C.ilist(ye[1][:, i, j].tolist()),
+                                    {**case, "metric": mtxt, "location": [i, j]}))
 
     # ---------------- calculate_future_trend_bias / calculate_future_trend
     for tt in ("additive", "multiplicative"):
@@ -598,6 +613,7 @@ def run(tier, res, force_search=False):
     ]
 
     lean_ok = C.lean_phase(res, PROP, GEN, TARGETS)
+    logging.disable(logging.WARNING)  # trend.py reports dropped rows with logging.warning
 
     n_cases = 9 if tier == "quick" else 60
     n_oracle = 4 if tier == "quick" else 24
@@ -631,6 +647,11 @@ def run(tier, res, force_search=False):
             why = judge(it, o, res)
             if why:
                 mismatches.append({"op": it["what"], "case": it["case"], "why": why})
+        eo = C.run_driver("DrvEvaluate", [e[0] for e in batch.exact]) if batch.exact else []
+        for (ln, want, cs), got in zip(batch.exact, eo):
+            res.cov["traces_validated_against_impl"] += 1
+            if want != got:
+                mismatches.append({"op": "_yearly_exceedances", "case": cs, "why": f"impl {want} model {got}"})
         ro = out[len(batch.lines):]
         for it in rex:
             res.cov["traces_validated_against_impl"] += 1
@@ -643,6 +664,7 @@ def run(tier, res, force_search=False):
     if mismatches:
         res.tie_broken.append(f"correspondence DrvEvaluate: {len(mismatches)} mismatches, first: {str(mismatches[0])[:500]}")
     res.extra["correspondence_mismatches"] = len(mismatches)
+    logging.disable(logging.NOTSET)
     res.extra.setdefault("ties_accepted", 0)
     res.extra.setdefault("mixed_guard_accepted", 0)
 
